@@ -155,6 +155,11 @@ MODEL_BEH = {"refuse": "refuse", "close": "garbage", "garbage": "garbage", "garb
 SCRIPT_TIMEOUT_MS = 600      # probe timeout (= read deadline) used with scripted hosts
 CHAT_MS = 100                # period of "chatty" unsolicited traffic: well below the read deadline
 SIG_CHATTY = "chatty-host-blocks-probe"
+SIG_TRICKLE = "trickling-host-blocks-probe"
+
+
+def script_trickles(mode):
+    return any(v.endswith("~") for k, v in script_fields(mode).items() if k in ("h", "v", "sv", "c", "k", "x"))
 
 
 def script(h="0+", v="0+", sv="n", c="0+", id=1, k="0+", x="0+", xo=0, fin=1, hg="-", chat="-", p="-", ck="ka", tr="-"):
@@ -222,6 +227,15 @@ def named_scripts(r, chat):
                      ("trickle-config", dict(c="-", tr="c")), ("trickle-caps", dict(k="-", tr="k")),
                      ("trickle-close", dict(x="-", fin=0, tr="x"))]:
         out.append((name, script(**kw)))
+    # ... and TRICKLED answers proper: the header (announcing 64 KiB more than comes) at once, then a byte at a time, just
+    # inside the read deadline (2/3 of it) resp. fast (every [chat] ms) — at every stage
+    for gap, tag in ((2 * r // 3, "just-inside"), (chat, "fast")):
+        # (the just-inside ones also ignore a CLOSE_CONNECTION that may or may not be written once the exchange budget is
+        # used up; the fast ones answer it and hang up, which releases a client stuck in the trickled message)
+        hold = dict(x="-", fin=0) if tag == "just-inside" else {}
+        for name, kw in [("hello", dict(h="%d~" % gap)), ("version", dict(v="%d~" % gap)), ("setver", dict(sv="%d~" % gap)),
+                         ("config", dict(c="%d~" % gap, **hold)), ("caps", dict(k="%d~" % gap, **hold)), ("close", dict(x="%d~" % gap, fin=0))]:
+            out.append(("payload-trickle-%s:%s" % (name, tag), script(**kw)))
     slow = "%d+" % (r // 4)
     out.append(("slow+ka", script(h=slow, v=slow, sv=slow, c=slow, k=slow, x=slow, p=str(chat))))
     out.append(("slow", script(h=slow, v=slow, sv=slow, c=slow, k=slow, x=slow)))
@@ -257,6 +271,9 @@ def random_script(rnd, r, chat):
         f.update(chat="_".join(str(chat * i) for i in range(1, rnd.choice([4, 12, 30]))))
     if tr == "none" and rnd.random() < 0.5:
         f.update(tr="hvsckx")      # wherever this script gives no answer, bytes of one trickle in
+    if tr == "none" and rnd.random() < 0.4:
+        st = rnd.choice(["h", "v", "sv", "c", "k", "x"])      # one answer trickled with its header delivered
+        f[st] = "%d~" % rnd.choice([chat, 2 * r // 3, 2 * r])
     if rnd.random() < 0.15:
         f.update(hg=str(rnd.choice([r // 2 + 50, 3 * r + 50, 10 * r + 50])))
     return script(**f)
@@ -286,7 +303,7 @@ class Scenario:
                                              ";".join(hs), ";".join(ds) or "-")
 
     def oracle_req(self, rd):
-        s = "run %d %d %s %d 1 P 1 D %d" % (self.max_ms, self.timeout_ms, rd, SEND_TIMEOUT_MS, len(self.devices))
+        s = "run %d %d %s %d 1 0 P 1 D %d" % (self.max_ms, self.timeout_ms, rd, SEND_TIMEOUT_MS, len(self.devices))
         for d in self.devices:
             s += " %d %d %s %s" % (ip_n(d["ip"]), PORTNUM[d["port"]], d["state"], hx(d["name"]))
         s += " H %d" % len(self.hosts)
@@ -407,8 +424,8 @@ def scenarios(rnd, thorough):
     # than the read deadline, so that the deadline never fires): one such host among well-behaved ones ...
     named = dict(named_scripts(SCRIPT_TIMEOUT_MS, CHAT_MS))
     chatty_budget = 1000 + 5 * SCRIPT_TIMEOUT_MS + SEND_TIMEOUT_MS + SLACK_MS
-    quick_names = ["reject-close+ka", "stall-config+mix", "ignore-close+ka"]
-    for name in (sorted(n for n in named if "+" in n) if thorough else quick_names):
+    quick_names = ["reject-close+ka", "stall-config+mix", "ignore-close+ka", "payload-trickle-config:just-inside"]
+    for name in (sorted(n for n in named if "+" in n or "payload-trickle" in n) if thorough else quick_names):
         k += 1
         H = [mk_host(k, 1, "refuse", rnd), mk_host(k, 2, "correct", rnd), mk_host(k, 3, named[name], rnd),
              mk_host(k, 4, "garbage", rnd), mk_host(k, 5, "correct", rnd), mk_host(k, 6, "refuse", rnd)]
@@ -562,6 +579,8 @@ def discover_scenarios(rnd, thorough):
     # KeepAlive every 200 ms); none of them sends an Identification
     named = dict(named_scripts(1000, 200))
     out.append(DiscoverScenario(["127.4.0.0/26"], 4, 1, 1, named["reject-close+ka"], [dhost(4, 0, 1, "correct", rnd)]))
+    # every host trickles its GET_READER_CONFIG reply, a byte every 2/3 of the read deadline
+    out.append(DiscoverScenario(["127.19.0.0/26"], 4, 1, 1, named["payload-trickle-config:just-inside"], [dhost(19, 0, 1, "correct", rnd)]))
     a = 4
     for _ in range(12 if thorough else 4):
         a += 1
@@ -577,13 +596,137 @@ def discover_scenarios(rnd, thorough):
     return out
 
 
+def naming_run_scenarios(rnd, k0):
+    """the naming rule judged on whole runs (autoDiscover against correct readers): every model of the prefix table and its
+    neighbours, other vendors with table models, MAC ids of 0, 2, 3, 6, 8 octets, other id types — independent of probe()'s
+    signature"""
+    ids = []
+    for m in [2001001, 2001002, 2001003, 2001004, 2001006, 2001007, 2001008, 2001009, 2001052, 2001005, 2001000, 2001053, 0]:
+        ids.append((IMPINJ, m))
+    ids += [(IMPINJ + 1, 2001002), (17996, 2001008), (0, 2001007), (2 ** 32 - 1, 2001004), (IMPINJ, 2 ** 32 - 1)]
+    shapes = [(0, 6), (0, 3), (0, 2), (1, 7), (0, 8), (2, 4), (0, 0), (1, 1)]
+    out, hosts = [], []
+    for n, (v, m) in enumerate(ids * 2):
+        t, ln = shapes[n % len(shapes)]
+        hosts.append((v, m, t, ln))
+    k = k0
+    for i in range(0, len(hosts), 6):
+        k += 1
+        H = []
+        for j, (v, m, t, ln) in enumerate(hosts[i:i + 6]):
+            rid = (bytes(rnd.getrandbits(8) for _ in range(max(ln - 3, 0))) + bytes([k, j + 1, 0xAB]))[:ln] if ln else b""
+            if ln in (1, 2):
+                rid = bytes([k, j + 1])[:ln]
+            H.append(dict(ip="127.0.%d.%d" % (k, j + 1), mode=rnd.choice(["correct", "correct", "correct-errver"]), v=v, m=m, t=t, rid=rid))
+        out.append(Scenario(k, H, [], rnd.choice([1, 3, 6]), 1000, 60000, 60000, "sets"))
+    return out
+
+
+def slow_reader(stage_ms):
+    """a correct reader that takes its time: stage_ms = delays of (first message, version, config, capabilities, close)"""
+    h, v, c, k, x = stage_ms
+    return script(h="%d+" % h, v="%d+" % v, c="%d+" % c, k="%d+" % k, x="%d+" % x)
+
+
+def deadline_stage_scenarios(rnd, thorough, k0):
+    """the run's deadline falling at every stage of the probe of a CORRECT reader (autoDiscover, deadline in ms): readers
+    that take 200 ms for every answer (stages end at 200, 400, 600, 800, 1000 ms) and deadlines in between; and readers
+    that are slow at one stage only with the deadline inside that stage. Such a reader is reported with the name and
+    identity it sent, or not at all."""
+    out = []
+    k = k0
+    even = slow_reader((200, 200, 200, 200, 200))
+    for dl in ([100, 300, 500, 700, 900, 1100] if thorough else [500, 700, 900]):
+        k += 1
+        H = [mk_host(k, 1, even, rnd), mk_host(k, 2, "correct", rnd), mk_host(k, 3, even, rnd), mk_host(k, 4, "refuse", rnd),
+             mk_host(k, 5, even, rnd), mk_host(k, 6, "garbage", rnd)]
+        for h in H:
+            h["v"], h["m"] = rnd.choice([(IMPINJ, 2001002), (IMPINJ, 2001008), (IMPINJ, 2001007)])     # a prefix that differs from the default
+        out.append(Scenario(k, H, [], 6, 1000, dl, dl + 1000 + SEND_TIMEOUT_MS + SLACK_MS, "time"))
+    k += 1
+    H = []
+    for i in range(5):
+        st = [0, 0, 0, 0, 0]
+        st[i] = 700
+        h = mk_host(k, i + 1, slow_reader(st), rnd)
+        h["v"], h["m"] = IMPINJ, rnd.choice([2001002, 2001008, 2001004])
+        H.append(h)
+    H.append(mk_host(k, 6, "correct", rnd))
+    out.append(Scenario(k, H, [], 6, 1000, 350, 350 + 1000 + SEND_TIMEOUT_MS + SLACK_MS, "time"))
+    return out
+
+
+def deadline_stage_discover(rnd, thorough):
+    """the same through Driver.Discover (MaxDiscoverDurationSeconds = 1, probe timeout 2 s): five correct readers, each slow
+    (1.4 s) at a different stage, all probed at once: the maximum passes while every one of them is at another stage"""
+    out = []
+    for a, late in ([(80, 1400)] + ([(81, 1100), (82, 1700)] if thorough else [])):
+        hosts = []
+        for i in range(5):
+            st = [0, 0, 0, 0, 0]
+            st[i] = late
+            h = dhost(a, 0, i + 1, slow_reader(st), rnd)
+            h["v"], h["m"] = IMPINJ, rnd.choice([2001002, 2001008, 2001004])
+            hosts.append(h)
+        out.append(DiscoverScenario(["127.%d.0.0/29" % a], 6, 2, 1, "close", hosts, label="maximum passes at every stage of a correct reader's probe"))
+    return out
+
+
+def parse_reported(txt):
+    """'<name hex>@<ip>@<vendorPEN>@<model>@<firmware hex>,..' -> names by ip, (vendor, model, firmware) by (ip, name)"""
+    rep, ident = {}, {}
+    for x in [x for x in txt.split(",") if x]:
+        p = x.split("@")
+        rep.setdefault(p[1], []).append(unhx(p[0]))
+        if len(p) >= 5:
+            ident[(p[1], unhx(p[0]))] = (p[2], p[3], unhx(p[4]))
+    return rep, ident
+
+
+def prompt_reader(mode, timeout_ms):
+    """a host that answers the whole exchange positively, each answer well inside the probe timeout, and does not hang up:
+    a CORRECT reader, if slow. Whatever else happens around its probe, it is reported with everything it sent or not at all."""
+    if not is_script(mode):
+        return MODEL_BEH.get(mode) == "answer"
+    f = script_fields(mode)
+    if f["id"] != "1" or f["hg"] != "-":
+        return False
+    for k in ("h", "v", "sv", "c", "k"):
+        if k == "sv" and f[k] == "n":
+            continue
+        if not f[k].endswith("+") or int(f[k][:-1]) > 0.8 * timeout_ms:
+            return False
+    return True
+
+
+def judge_identity(res, what, h, names, ident, timeout_ms, rd, fw=b"1.2.3"):
+    """the name follows the rule for the identity the host sent, and vendor / model / firmware are reported as received
+    (0, 0, "" together with the default prefix only where no capabilities were received)"""
+    full, nocaps = spec_name(h["v"], h["m"], h["t"], h["rid"]), spec_name(0, 0, h["t"], h["rid"])
+    want = [full] if prompt_reader(h["mode"], timeout_ms) else allowed_names(h)
+    if len(names) != 1 or names[0] not in want:
+        extra = ""
+        if prompt_reader(h["mode"], timeout_ms) and names and names[0] == nocaps:
+            extra = " (the name a reader gets when NO capabilities were received — this one answers GET_READER_CAPABILITIES)"
+        res.violation("name-wrong:run", "%shost %s (%s) reported as %r, the rule gives %r%s" % (what, h["ip"], h["mode"], names, want[0], extra), rd)
+        return
+    got = ident.get((h["ip"], names[0]))
+    if got is None:
+        return
+    sent, none = (str(h["v"]), str(h["m"]), fw), ("0", "0", b"")
+    if full != nocaps:
+        ok = got == (sent if names[0] == full else none)
+    else:
+        ok = got == sent or (got == none and not prompt_reader(h["mode"], timeout_ms))
+    if not ok:
+        res.violation("identity-not-as-received", "%shost %s (%s) reported as %r with vendor/model/firmware %r; it sent (%d, %d, %r)" % (
+            what, h["ip"], h["mode"], names[0], got, h["v"], h["m"], fw), rd)
+
+
 def parse_run(line):
     f = line.split()
     d = kv(line)
-    rep = {}
-    for x in [x for x in d.get("reported", "").split(",") if x]:
-        n, ip = x.split("@")
-        rep.setdefault(ip, []).append(unhx(n))
+    rep, ident = parse_reported(d.get("reported", ""))
     acc = {}
     for x in [x for x in d.get("accepts", "").split(",") if x]:
         ip, n = x.split("=")
@@ -592,7 +735,7 @@ def parse_run(line):
     for x in [x for x in d.get("other", "").split(",") if x]:
         key, n = x.split("=")
         oth[tuple(key.split("/"))] = int(n)
-    return dict(status=f[0], elapsed=int(f[1]), reported=rep, accepts=acc, other=oth, updated=d.get("updated", ""), released=d.get("released"))
+    return dict(status=f[0], elapsed=int(f[1]), reported=rep, ident=ident, accepts=acc, other=oth, updated=d.get("updated", ""), released=d.get("released"))
 
 
 # ------------------------------------------------------------------ supervised execution
@@ -666,10 +809,21 @@ def run(tier, seed, replay=None):
     if rc != 0:
         res.violation("oracle-build", "oracle for C17 does not build: " + log[-800:], dict(kind="build"), False)
         return res.finish()
-    ok, log, exe = vlib.build_harness("driver", PID, ["c17_test.go"])
+    # the harness has two parts: c17_probe_test.go is the only file that calls probe() itself (naming grid, single probes);
+    # c17_test.go drives whole runs through autoDiscover / Driver.Discover. If the first no longer compiles (probe()'s
+    # signature changed) that is reported as what it is, and the property is still judged through the runs.
+    probe_level = True
+    ok, log, exe = vlib.build_harness("driver", PID, ["c17_test.go", "c17_probe_test.go"])
     if not ok:
-        res.violation("harness-build", "Go harness does not build against the repository: " + log[-1500:], dict(kind="build"), False)
-        return res.finish()
+        ok2, log2, exe = vlib.build_harness("driver", PID, ["c17_test.go"])
+        if not ok2:
+            res.violation("harness-build", "Go harness does not build against the repository: " + log2[-1500:], dict(kind="build"), False)
+            return res.finish()
+        probe_level = False
+        res.violation("harness-build:probe-level", "the probe-level part of the harness (harness/driver/c17_probe_test.go: direct calls of probe(host, port, timeout)) "
+                      "does not compile against this tree — NOT a finding about the property by itself; the naming grid and the single-probe host scripts were "
+                      "not run, whole runs through autoDiscover and Driver.Discover were judged as usual. Compiler: " + " ".join(log[-600:].split()),
+                      dict(kind="build", log=log[-3000:]), False)
 
     thorough = tier == "thorough"
     rnd = random.Random(seed)
@@ -687,10 +841,14 @@ def run(tier, seed, replay=None):
         scens = scenarios(rnd, thorough)
         dscens = discover_scenarios(rnd, thorough)
         dscens += config_history_scenarios(rnd, thorough, 40)
+        scens += naming_run_scenarios(rnd, 120) + deadline_stage_scenarios(rnd, thorough, 140)
+        dscens += deadline_stage_discover(rnd, thorough)
         probe_budget = PROBE_TIMEOUT_MS + SEND_TIMEOUT_MS + SLACK_MS + (30000 if thorough else 0)
         pscripts = named_scripts(SCRIPT_TIMEOUT_MS, CHAT_MS)
         pscripts += [("random-%d" % i, random_script(rnd, SCRIPT_TIMEOUT_MS, CHAT_MS)) for i in range(150 if thorough else 30)]
     script_budget = 5 * SCRIPT_TIMEOUT_MS + SEND_TIMEOUT_MS + SLACK_MS
+    if not probe_level:
+        ncases, pmodes, pscripts = [], [], []
 
     go_reqs, orc_reqs = [], []
     for c in ncases:
@@ -710,16 +868,16 @@ def run(tier, seed, replay=None):
     # the timing model's prediction for single probes, both timer settings
     for (mode, beh, want) in pmodes:
         for rd in ("-", str(PROBE_TIMEOUT_MS)):
-            orc_reqs.append("run 1000 %d %s %d 1 P 1 D 0 H 1 1 %s 25882 2001002 0 001625123456 W 1 1 1" % (PROBE_TIMEOUT_MS, rd, SEND_TIMEOUT_MS, beh))
+            orc_reqs.append("run 1000 %d %s %d 1 0 P 1 D 0 H 1 1 %s 25882 2001002 0 001625123456 W 1 1 1" % (PROBE_TIMEOUT_MS, rd, SEND_TIMEOUT_MS, beh))
     # scripts: the model as the code is (read deadline = probe timeout, forced Close after a failed Shutdown), the same
     # with the deadline 15 % shorter / longer (is the outcome robust against timing?), without the forced Close, and
     # without a read deadline
     R = SCRIPT_TIMEOUT_MS
-    SCRIPT_SETTINGS = [("code", str(R), 1), ("short", str(R * 85 // 100), 1), ("long", str(R * 115 // 100), 1),
-                       ("no-forced-close", str(R), 0), ("no-read-deadline", "-", 1)]
+    SCRIPT_SETTINGS = [("code", str(R), 1, 0), ("short", str(R * 85 // 100), 1, 0), ("long", str(R * 115 // 100), 1, 0),
+                       ("no-forced-close", str(R), 0, 0), ("no-read-deadline", "-", 1, 0), ("idle-time-deadline", str(R), 1, 1)]
     for (name, sc) in pscripts:
-        for (_, rd, fc) in SCRIPT_SETTINGS:
-            orc_reqs.append("run 1000 %d %s %d %d P 1 D 0 H 1 1 %s 25882 2001002 0 001625123456 W 1 1 1" % (R, rd, SEND_TIMEOUT_MS, fc, sc))
+        for (_, rd, fc, idle) in SCRIPT_SETTINGS:
+            orc_reqs.append("run 1000 %d %s %d %d %d P 1 D 0 H 1 1 %s 25882 2001002 0 001625123456 W 1 1 1" % (R, rd, SEND_TIMEOUT_MS, fc, idle, sc))
 
     conf_base = len(orc_reqs)
     for ds in dscens:
@@ -863,7 +1021,7 @@ def run(tier, seed, replay=None):
     for (name, sc), g in zip(pscripts, go_script_lines):
         g = g.strip()
         evals += 1
-        fam = "chatty" if script_chats(sc) else "silent"
+        fam = "trickle" if script_trickles(sc) else ("chatty" if script_chats(sc) else "silent")
         dist["probe-script:" + fam] = dist.get("probe-script:" + fam, 0) + 1
         nontriv.add(("script", sc))
         md = script_model[name]
@@ -898,10 +1056,15 @@ def run(tier, seed, replay=None):
                 continue
             res.violation("model-differs:probe-script", "probe against the host script '%s' (%s): Go %s, the model (time, class) %s" % (
                 name, sc, g2.strip(), script_model[name]["code"]), dict(kind="probe-script", scripts=[[name, sc]], observed=g2.strip(), model=script_model[name]), False)
-    for sig, fam, why in ((SIG_CHATTY, True, "a host that keeps sending unsolicited messages (KeepAlives, events, reports) more often than the probe's read deadline, "
+    def family(sc):
+        return "trickle" if script_trickles(sc) else ("chatty" if script_chats(sc) else "silent")
+
+    for sig, fam, why in ((SIG_TRICKLE, "trickle", "a host that delivers an answer a byte at a time, each byte inside the probe's read deadline, so that the message never "
+                           "completes and the deadline — if it bounds idle time instead of the arrival of the whole message — never fires, blocks probe() for ever"),
+                          (SIG_CHATTY, "chatty", "a host that keeps sending unsolicited messages (KeepAlives, events, reports) more often than the probe's read deadline, "
                            "so that the deadline never fires, and stalls / refuses or ignores CLOSE_CONNECTION blocks probe() for ever: nothing closes the probe's client"),
-                          (SIG_SILENT, False, "a host that stops talking without closing the connection blocks probe() for ever")):
-        bl = [(n, sc, g) for (n, sc, g) in blocked_scripts if script_chats(sc) == fam]
+                          (SIG_SILENT, "silent", "a host that stops talking without closing the connection blocks probe() for ever")):
+        bl = [(n, sc, g) for (n, sc, g) in blocked_scripts if family(sc) == fam]
         if bl:
             res.violation(sig, "%s. probe(timeout %d ms) had not returned after %d ms (timeout + sendTimeout %d ms + 4 read deadlines + slack) for the host scripts: %s" % (
                 why, SCRIPT_TIMEOUT_MS, script_budget, SEND_TIMEOUT_MS, "; ".join("%s = %s" % (n, sc) for n, sc, _ in bl[:12]) + (" ... (%d in all)" % len(bl) if len(bl) > 12 else "")),
@@ -909,7 +1072,7 @@ def run(tier, seed, replay=None):
                      model=dict((n, script_model[n]) for n, _, _ in bl)))
     # which setting of the model describes the implementation (information only)
     go_blocked = set(n for n, _, _ in blocked_scripts)
-    match = [k for (k, _, _) in SCRIPT_SETTINGS if k not in ("short", "long") and
+    match = [k for (k, _, _, _) in SCRIPT_SETTINGS if k not in ("short", "long") and
              set(n for n, _ in pscripts if script_model[n][k][0] == "never") == go_blocked]
     res.notes.append("host scripts: %d played (%d with unsolicited traffic); blocked in Go: %s; model settings predicting exactly this set: %s" % (
         len(pscripts), sum(1 for _, sc in pscripts if script_chats(sc)), sorted(go_blocked) or "none", match or "none"))
@@ -966,9 +1129,7 @@ def run(tier, seed, replay=None):
             if h is None or not may_be_reported(h["mode"]):
                 res.violation("unidentified-reported", "host %s (behaviour %s) was reported as %r" % (ip, h and h["mode"], names), rd)
                 continue
-            want = allowed_names(h)
-            if len(names) != 1 or names[0] not in want:
-                res.violation("name-wrong:run", "host %s reported as %r, the rule gives %r" % (ip, names, want[0]), rd)
+            judge_identity(res, "", h, names, r["ident"], s.timeout_ms, rd)
         # (c) time
         if r["status"] == "blocked":
             stallers = [h["mode"] for h in s.hosts if h["mode"] in STALL_MODES and h["mode"] != "stall-neg"]
@@ -1058,27 +1219,22 @@ def run(tier, seed, replay=None):
             res.violation("run-exceeds-max-duration", "%s had not returned after %d ms (%s dials)" % (cfg_txt, ds.budget_ms, d["dials"]), rd)
             return
         by_ip = {h["ip"]: h for h in ds.hosts}
-        rep = {}
-        for x in [x for x in d.get("reported", "").split(",") if x]:
-            n, ip = x.split("@")
-            rep.setdefault(ip, []).append(unhx(n))
-        bad = False
+        rep, ident = parse_reported(d.get("reported", ""))
+        nv = len(res.violations)
         for ip, names in rep.items():
             h = by_ip.get(ip)
-            if h is None or MODEL_BEH[h["mode"]] != "answer":
+            if h is None or not may_be_reported(h["mode"]):
                 res.violation("unidentified-reported", "%s: host %s (behaviour %s) was reported as %r" % (cfg_txt, ip, h["mode"] if h else ds.default_mode, names), rd)
-                bad = True
-            elif names != [spec_name(h["v"], h["m"], h["t"], h["rid"])]:
-                res.violation("name-wrong:run", "%s: host %s reported as %r, the rule gives %r" % (cfg_txt, ip, names, spec_name(h["v"], h["m"], h["t"], h["rid"])), rd)
-                bad = True
-        if bad:
+            else:
+                judge_identity(res, cfg_txt + ": ", h, names, ident, ds.probe_s * 1000, rd)
+        if len(res.violations) != nv:
             return
         if d["published"] != "1":
             res.violation("result-not-published", "%s returned but handed %s result lists to the SDK's channel" % (cfg_txt, d["published"]), rd, False)
             return
         dialled = set(x for x in d.get("probed", "").split(",") if x)
-        want = set(h["ip"] for h in ds.hosts if MODEL_BEH[h["mode"]] == "answer" and h["ip"] in dialled)
-        if set(rep) != want:
+        want = set(h["ip"] for h in ds.hosts if model_beh(h["mode"]) == "answer" and h["ip"] in dialled)
+        if set(rep) - set(h["ip"] for h in ds.hosts if is_script(h["mode"])) != want:
             res.violation("model-differs:discover", "%s: readers dialled and answering %s, reported %s" % (cfg_txt, sorted(want), sorted(rep)), rd, False)
             return
         # the other settings of the configuration last delivered, as far as the hosts' side can see them
